@@ -598,6 +598,45 @@ func runRootsCase(c *engine.Ctx, rc rootsCase) {
 			k.wellFormed(ret.Current, "current")
 			k.wellFormed(ret.Next, "next")
 		}
+	case "reinit-skip":
+		// reinitialization requested by a caller that stores the result itself (WithSkipStorage): whatever
+		// is stored, the call hands back two fresh roots; the option order must not matter
+		r.Eval(desc, true)
+		ck, nk := world.NewKeys(), world.NewKeys()
+		now := time.Now()
+		at := func(i int) time.Time { return now.Add(offsetOf(rc.Levels[i], rc.NowGap)) }
+		if _, err := storeCrafted(s, ck, nk, at(0), at(1), at(2), at(3)); err != nil {
+			r.Broken("crafted store: " + err.Error())
+			return
+		}
+		o := rc.opts(s)
+		if rc.Seed%2 == 0 {
+			o = append(o, nodeenrollment.WithSkipStorage(true))
+		} else {
+			o = append([]nodeenrollment.Option{nodeenrollment.WithSkipStorage(true)}, o...)
+		}
+		var ret *types.RootCertificates
+		var cerr error
+		if p, st := engine.Guard(func() { ret, cerr = rotation.RotateRootCertificates(s.Ctx, s.Store, o...) }); p != nil {
+			k.viol("panic:"+engine.LibraryFrame(st), fmt.Sprintf("RotateRootCertificates panicked (reinitialize, skip storage): %v", p))
+			return
+		}
+		switch {
+		case cerr != nil:
+			k.viol("reinitialize-refused:skip-storage", "reinitialization with WithSkipStorage failed over readable roots: "+cerr.Error())
+		case ret == nil || ret.Current == nil || ret.Next == nil:
+			k.viol("reinitialize-incomplete:skip-storage", "reinitialization with WithSkipStorage did not return two roots")
+		default:
+			for _, rt := range []*types.RootCertificate{ret.Current, ret.Next} {
+				if bytes.Equal(rt.PublicKeyPkix, ck.Pkix) || bytes.Equal(rt.PublicKeyPkix, nk.Pkix) {
+					k.viol("reinitialize-kept-root:skip-storage", fmt.Sprintf("reinitialization was requested (with WithSkipStorage) and the returned %s root is one of the previous roots (levels %v, now in gap %d)", rt.Id, rc.Levels, rc.NowGap))
+					return
+				}
+			}
+			k.wellFormed(ret.Current, "current")
+			k.wellFormed(ret.Next, "next")
+			r.Count("reinit_with_skip_storage_replaced_both", 1)
+		}
 	case "near":
 		r.Eval(desc, true)
 		ck, nk := world.NewKeys(), world.NewKeys()
@@ -747,6 +786,15 @@ func runRoots(c *engine.Ctx) engine.Result {
 			}
 		}
 	}
+	{
+		n := 0
+		for _, lv := range weakOrderings4() {
+			for gap := 0; gap <= numLevels(lv); gap++ {
+				n++
+				cases = append(cases, rootsCase{Kind: "reinit-skip", Levels: lv, NowGap: gap, LifetimeS: 36000, NbSkewS: -300, NaSkewS: 300, Reinit: true, Wrap: n%3 == 0, Backend: world.Inmem, Seed: int64(n)})
+			}
+		}
+	}
 	for _, cf := range cfgs {
 		cases = append(cases, rootsCase{Kind: "empty", LifetimeS: cf.L, NbSkewS: cf.nb, NaSkewS: cf.na, Reinit: cf.reinit, Wrap: cf.wrap, Backend: cf.backend})
 		for _, miss := range []string{"next", "current"} {
@@ -797,6 +845,7 @@ func runRoots(c *engine.Ctx) engine.Result {
 	r.Require("walk_steps", 100)
 	r.Require("halfmissing_refused", 1)
 	r.Require("reinit_under_fault:positions", 24)
+	r.Require("reinit_with_skip_storage_replaced_both", 50)
 	r.Require("unreadable_roots:refused:other-wrapper", 4)
 	r.Require("unreadable_roots:refused:no-wrapper", 4)
 	r.Require("unreadable_roots:refused:fault", 8)
